@@ -7,6 +7,7 @@ import (
 	"io"
 
 	"github.com/pyroscope-io/pyroscope/pkg/storage/dict"
+	"github.com/pyroscope-io/pyroscope/pkg/util/serialization"
 	"github.com/pyroscope-io/pyroscope/pkg/util/varint"
 )
 
@@ -123,8 +124,10 @@ func Deserialize(d *dict.Dict, r io.Reader) (*Tree, error) {
 		// if err == io.EOF {
 		// 	return t, nil
 		// }
-		labelLinkBuf := make([]byte, labelLen) // TODO: there are better ways to do this?
-		_, err = io.ReadAtLeast(br, labelLinkBuf, int(labelLen))
+		if err != nil {
+			return nil, err
+		}
+		labelLinkBuf, err := serialization.ReadBytes(br, labelLen)
 		if err != nil {
 			return nil, err
 		}
@@ -178,8 +181,10 @@ func DeserializeNoDict(r io.Reader) (*Tree, error) {
 		// if err == io.EOF {
 		// 	return t, nil
 		// }
-		nameBuf := make([]byte, nameLen) // TODO: there are better ways to do this?
-		_, err = io.ReadAtLeast(br, nameBuf, int(nameLen))
+		if err != nil {
+			return nil, err
+		}
+		nameBuf, err := serialization.ReadBytes(br, nameLen)
 		if err != nil {
 			return nil, err
 		}
